@@ -9,6 +9,7 @@ differ from one looked-up name to the next).
 -/
 import AGH.Lemmas.RewritesRun
 import AGH.Lemmas.RewritesOrder
+import AGH.Lemmas.RewritesDns
 namespace AGH.C06
 open AGH AGH.Bytes
 
@@ -16,9 +17,9 @@ open AGH AGH.Bytes
 
 /-- Whatever sorted permutation the runtime's sort produces at each name, the
 result of `processRewrites` is acceptable to the spec. -/
-theorem C06_meets_spec_any_sort (srt : Bytes → Sorter) (tbl : List Entry) (h : Bytes) (q : Nat) :
-    Spec.specOK tbl h q (processRewritesWith srt tbl h q) = true := by
-  unfold Spec.specOK processRewritesWith processRun
+theorem C06_meets_spec_exact_any_sort (srt : Bytes → Sorter) (tbl : List Entry) (h : Bytes) (q : Nat) :
+    Spec.specExact tbl h q (processRewritesWith srt tbl h q) = true := by
+  unfold Spec.specExact processRewritesWith processRun
   have hview := find_view (srt h) tbl h q
   split
   · next hm =>
@@ -44,24 +45,65 @@ theorem C06_meets_spec_any_sort (srt : Bytes → Sorter) (tbl : List Entry) (h :
       rw [← hview.1]
       simpa using hm
 
-/-- `∀ i, specOK i (model i)` for the executable model (stable sort). -/
-theorem C06_model_meets_spec (tbl : List Entry) (h : Bytes) (q : Nat) :
-    Spec.specOK tbl h q (processRewrites tbl h q) = true :=
-  C06_meets_spec_any_sort _ tbl h q
+/-! ### The monitor proper (names case-insensitive)
 
-/-- The same for the rewrite part of `CheckHost` (queried name lower-cased). -/
-theorem C06_checkhost_meets_spec (srt : Bytes → Sorter) (tbl : List Entry) (h : Bytes) (q : Nat)
-    (hne : h ≠ []) :
-    Spec.specOK tbl (lower h) q (checkHostWith srt tbl h q) = true := by
+Full statement:
+
+    theorem C06_model_meets_spec (tbl h q) :
+        Spec.specOK tbl h q (processRewrites tbl h q) = true
+
+It is FALSE for the code: `normalize` lower-cases `Domain` but not `Answer`, and
+`CheckHost` lower-cases the queried name, so an entry `Example.com →
+Example.com` is stored as `example.com → Example.com`, is NOT recognised as the
+"name to itself" exception, and yields a CNAME from the name to itself that is
+sent upstream; likewise a CNAME to `B.x.com` is not followed into the entries
+for `b.x.com`.  `C06_counterexample_answer_case` is the witness;
+`C06_model_meets_spec_partial` is the statement for tables whose names are in
+lower case (then the case-insensitive monitor and `specExact` coincide). -/
+
+theorem C06_counterexample_answer_case :
+    ∃ (tbl : List Entry) (h : Bytes) (q : Nat),
+      Spec.specOK tbl h q (processRewrites tbl h q) = false ∧
+      processRewrites tbl h q = ⟨true, asc "Example.com", []⟩ :=
+  ⟨[ent "Example.com" "Example.com"], asc "example.com", 1, by decide +kernel, by decide +kernel⟩
+
+/-- `∀ i, specOK i (model i)` for tables with lower-case names and a lower-case
+query name (what `CheckHost` passes), for every tie-breaking of the sort. -/
+theorem C06_model_meets_spec_partial (srt : Bytes → Sorter) (tbl : List Entry) (h : Bytes) (q : Nat)
+    (hl : Spec.LowerNames tbl) (hh : lower h = h) :
+    Spec.specOK tbl h q (processRewritesWith srt tbl h q) = true := by
+  unfold Spec.specOK
+  rw [lowerNames_map hl, hh, process_canon_lower srt tbl h q hl]
+  exact C06_meets_spec_exact_any_sort srt tbl h q
+
+/-- The same for the rewrite part of `CheckHost` (which lower-cases the name). -/
+theorem C06_checkhost_meets_spec_partial (srt : Bytes → Sorter) (tbl : List Entry) (h : Bytes)
+    (q : Nat) (hne : h ≠ []) (hl : Spec.LowerNames tbl) :
+    Spec.specOK tbl h q (checkHostWith srt tbl h q) = true := by
   unfold checkHostWith
   rw [if_neg hne]
   simp only
-  have hspec := C06_meets_spec_any_sort srt tbl (lower h) q
+  have hspec := C06_model_meets_spec_partial srt tbl (lower h) q hl (lower_idem h)
+  unfold Spec.specOK at hspec ⊢
+  rw [lower_idem] at hspec
   split
   · exact hspec
   · next hr =>
-    unfold Spec.specOK at hspec ⊢
-    exact allowedFrom_not_rewritten _ _ _ _ (by simpa using hr) _ _ _ hspec
+    unfold Spec.specExact at hspec ⊢
+    have hr' : (Spec.foldOut (processRewritesWith srt tbl (lower h) q)).rewritten = false := by
+      simpa [Spec.foldOut] using hr
+    exact allowedFrom_not_rewritten _ _ _ _ hr' _ _ _ hspec
+
+/-- In terms of the configuration: `prepareRewrites` lower-cases the patterns
+and `CheckHost` the queried name, so the only hypothesis left is that the
+configured CNAME answers are written in lower case. -/
+theorem C06_model_meets_spec_prepared (srt : Bytes → Sorter) (rs : List Raw) (h : Bytes) (q : Nat)
+    (hne : h ≠ [])
+    (hans : ∀ r ∈ rs, (normalize r).typ = .CNAME → lower r.answer = r.answer) :
+    Spec.specOK (prepare rs) h q (checkHostWith srt (prepare rs) h q) = true ∧
+    Spec.specOK (prepare rs) (lower h) q (processRewritesWith srt (prepare rs) (lower h) q) = true :=
+  ⟨C06_checkhost_meets_spec_partial srt (prepare rs) h q hne (prepare_lowerNames rs hans),
+   C06_model_meets_spec_partial srt (prepare rs) (lower h) q (prepare_lowerNames rs hans) (lower_idem h)⟩
 
 /-! ## Termination -/
 
@@ -331,6 +373,22 @@ theorem C06_cname_upstream (srt : Bytes → Sorter) (tbl : List Entry) (h t : By
   unfold dispatch
   simp [htne]
 
+/-! ## DNS level -/
+
+/-- What the client and the upstream see (question restored, leading CNAME,
+upstream asked only for a pass-through or an unfinished CNAME, local NOERROR
+answer otherwise) is acceptable to the DNS-level monitor — for tables with
+lower-case names (see `C06_counterexample_answer_case`). -/
+theorem C06_dns_meets_spec_partial (srt : Bytes → Sorter) (tbl : List Entry) (h : Bytes) (q : Nat)
+    (hne : h ≠ []) (hl : Spec.LowerNames tbl) :
+    Spec.dnsSpecOK tbl h q (respondWith srt tbl h q) = true := by
+  unfold Spec.dnsSpecOK respondWith
+  rw [obsToOut_render _ h q (checkHost_not_rewritten srt tbl h q) (checkHost_ips_family srt tbl h q)]
+  have := C06_checkhost_meets_spec_partial srt tbl h q hne hl
+  unfold Spec.specOK at this ⊢
+  rw [lower_idem]
+  exact this
+
 /-! ## Order of entries and tie-breaking of the sort
 
 Full statement (DESIGN: `C06_order_independent`, `C06_sort_agnostic`):
@@ -471,6 +529,35 @@ example : ∀ e ∈ [ent "host.com" "::1" (some false)], matchesHost e (asc "hos
 /-- the hypotheses of `C06_cname_upstream` -/
 example : ∀ e ∈ Spec.mostSpecific (specCnames [ent "sub.host.com" "host.com"] (asc "sub.host.com")),
     e.answer = asc "host.com" ∧ e.domain ≠ asc "host.com" := by decide +kernel
+
+/-- DNS level, `TestRewrite`'s third case: upstream asked for the canonical
+name only, original question restored, CNAME record first -/
+example : respond [ent "my.alias.example.org" "example.org"] (asc "my.alias.example.org") 1 =
+    ⟨[asc "example.org"], 0, asc "my.alias.example.org",
+     [⟨5, asc "my.alias.example.org", asc "example.org"⟩, ⟨1, asc "example.org", ups4⟩]⟩ := by
+  decide +kernel
+
+/-- DNS level, no data: empty NOERROR, the upstream is not asked -/
+example : respond [ent "host.com" "1.2.3.4" (some true)] (asc "Host.com") 28 =
+    ⟨[], 0, asc "Host.com", []⟩ := by decide +kernel
+
+/-- DNS level, CNAME + address from the table -/
+example : respond [ent "sub.host.com" "host.com", ent "host.com" "1.2.3.4" (some true)]
+    (asc "sub.host.com") 1 =
+    ⟨[], 0, asc "sub.host.com",
+     [⟨5, asc "sub.host.com", asc "host.com"⟩, ⟨1, asc "host.com", asc "1.2.3.4"⟩]⟩ := by
+  decide +kernel
+
+/-- the hypothesis `LowerNames` holds for an ordinary table … -/
+example : Spec.LowerNames
+    [ent "Host.com" "1.2.3.4" (some true), ent "*.x.com" "b.x.com", ent "b.x.com" "AAAA"] := by
+  unfold Spec.LowerNames
+  decide +kernel
+
+/-- … and fails for the counterexample table -/
+example : ¬ Spec.LowerNames [ent "Example.com" "Example.com"] := by
+  unfold Spec.LowerNames
+  decide +kernel
 
 end Examples
 
